@@ -108,6 +108,7 @@ def mut(e):
 def run(ctx):
     ctx.mc("MC_Bip85", core.cfg_of("MC_Bip85.cfg"), label="parameter space: word counts 0..30, byte counts 0..80, lengths 0..100, index classes; path injectivity")
     events = core.build_events(ctx, gen_inputs(ctx))
+    events += core.suite_events(ctx, ["tests/test_bip85.py"], ("Bip85",), len(events), limit=24 if ctx.quick else 400)
     for e in events[:2] + events[-1:]:
         ctx.sample({"call": describe(e), "res": str(e["res"])[:160]})
     rj = ctx.validate(MODULE, events, min_shard=20)
